@@ -230,7 +230,7 @@ mod v_iface_egress {
     }
 
     // socket egress through a device: exactly-once on success, queue untouched under back-pressure, legal source
-    // @harness props=C09,C10 cfg=KI4 tier=q to=1200 mem=10 unwind=50 opts=nomem covers=3 funcs=Interface::socket_egress;udp::Socket::dispatch;InterfaceInner::dispatch_ip;InterfaceInner::get_source_address bounds=Ethernet;_one_UDP_socket_with_one_queued_4-byte_datagram_to_a_cached_on-link_peer;_device_accepts_or_refuses_(symbolic);_second_egress_pass
+    // @harness props=C09,C10 cfg=KI4 tier=q to=1200 mem=8 unwind=50 opts=nomem covers=3 funcs=Interface::socket_egress;udp::Socket::dispatch;InterfaceInner::dispatch_ip;InterfaceInner::get_source_address bounds=Ethernet;_one_UDP_socket_with_one_queued_4-byte_datagram_to_a_cached_on-link_peer;_device_accepts_or_refuses_(symbolic);_second_egress_pass
     #[kani::proof]
     pub(crate) fn udp_egress_exactly_once() {
         let mtu = 1500usize;
